@@ -3,7 +3,8 @@
 O (direct oracle, real classes only)
   * items of every type (type-directed generator) -> real `to_sml()` / `str()` -> real `Item.from_sml` -> same type structure and values
     (`_value` compared exactly, floats by IEEE bits, plus `encode()` bytes)
-  * rejection stream: every single-token deletion and every type-name mutation of valid SML, every single-character deletion
+  * rejection stream: every single-token deletion and every type-name mutation of valid SML, every closing `>` (of every item class,
+    alone and nested) replaced by `.`, `<`, a number, a quoted literal, a type word, `[`/`]` — must raise, except `.` for a list's `>` —, every single-character deletion
     and every truncation of valid SML (so: input ending inside an open quoted literal), random strings over the token alphabet and over a
     character alphabet; every call of the real tokenizer/parser/printer under a 2 s watchdog — exceeding it is violation class
     `c15-nontermination` with the minimised input (after the first one the deadline drops to 0.4 s and the run stops after a few); a deleted closing bracket or an
@@ -694,6 +695,44 @@ def run(a, res):
                     variant = " ".join(toks[:i] + [name] + toks[i + 1:])
                     reject_case(variant, "unknown-type-name", "mutate-type-name")
                     n_mut += 1
+    # a closing `>` replaced by each other token kind of the grammar.  Text whose item lost its closing bracket must be rejected; the one
+    # replacement the code deliberately accepts is `.` for the `>` of a *list* (`_read_items`: `not in ">."`, a documented note) — there the
+    # result only has to agree with the model.  A trailing blank is appended so that a final `.` is tokenised at all (no flush at EOF).
+    typed = []
+    for tag in TYPE_NAMES:
+        if tag == "L":
+            continue
+        for leaf in (gen_leaf(rng, tag), (tag, b"" if tag in ("A", "J", "B") else [])):
+            if tag in ("A", "J"):
+                leaf = (tag, bytes(b for b in leaf[1] if b != QUOTE and b not in JIS_SPECIAL) if leaf[1] else leaf[1])
+            typed += [leaf, chain(1, leaf), chain(3, leaf), ("L", [("U1", [1]), leaf, ("A", b"x")]), ("L", [("L", [leaf, leaf]), ("L", [])])]
+    typed_texts = []
+    for t in typed:
+        if roundtrip_fails(t) is None:
+            typed_texts.append(impl_print(t))
+    REPLACEMENTS = [(".", "dot"), ("<", "open"), ("1", "number"), ("0x1", "number"), ('"x"', "quoted"), ("U1", "type-word"), ("A", "type-word"),
+                    ("L", "type-word"), ("]", "bracket"), ("[", "bracket")]
+    n_rep = 0
+    for text in typed_texts + base_texts[-(600 if big else 120):]:
+        toks = tokens_of(text)
+        if toks is None or len(toks) > (160 if big else 60):
+            continue
+        stack, owner = [], {}
+        for i, tok in enumerate(toks):
+            if tok == "<" and i + 1 < len(toks):
+                stack.append(toks[i + 1].upper())
+            elif tok == ">" and stack:
+                owner[i] = stack.pop()
+        for i, ty in owner.items():
+            for repl, kind in REPLACEMENTS:
+                variant = " ".join(toks[:i] + [repl] + toks[i + 1:]) + " "
+                tolerated = ty == "L" and repl == "."
+                reject_case(variant, None if tolerated else "closing-bracket-replaced",
+                            f"replace-closer:{'list' if ty == 'L' else 'leaf'}:{kind}")
+                res.bump("replace_closer_item_type", ty)
+                n_rep += 1
+    res.exhaustive_parts.append(f"every closing '>' of {len(typed_texts)} per-type texts (every class, empty and non-empty, alone and nested 1-3 deep) and of "
+                                f"generated texts replaced by each of {len(REPLACEMENTS)} other tokens: {n_rep} texts")
     res.exhaustive_parts.append(f"every single-token deletion ({n_del}) and type-name mutation at every type position ({n_mut}) of {len(base_texts)} valid SML texts")
     for i in range(40000 if big else 6000):
         reject_case(random_token_text(rng), None, "random-tokens")
